@@ -23,3 +23,8 @@ add("C17", "exploration",
     "Trusted: ref.Equal (transcription of the documented rules) and ref.Encode. Pairs the documentation does not decide (empty lists of different kinds, void vs bit list, bit vs struct list, nil clients across messages) are only checked for symmetry and absence of errors.",
     "property-based metamorphic + differential testing against an executable specification (rapid)",
     "DESIGN.md section 4, C17")
+add("C18", "exploration",
+    "Generated capability-free root structs (and members of struct lists / primitive lists) in drawn encodings are canonicalised; the output must pass an independent validator of the spec's canonical form, decode (strictly) to the truncated input value, be byte-identical for a second encoding of the same value with different padding/layout, and be a fixpoint; any capability pointer must be rejected.",
+    "Trusted: ref.CheckCanonical / ref.Truncate / ref.Decode. The pointer offset of zero-length lists, which the spec leaves open, is deliberately not constrained.",
+    "property-based testing with a validity predicate + metamorphic relations (layout independence, idempotence) (rapid)",
+    "DESIGN.md section 4, C18")
